@@ -37,15 +37,15 @@ class RTCBase(NLRI):
     """RTC (Route Target Constraint) NLRI using packed-bytes-first pattern.
 
     Wire format (13 bytes for full RTC, 1 byte for wildcard):
-    [length(1)] [origin(4)] [rt(8)]
+    [length(1)] [origin(4)] [rt(0 to 8)]
      0:1         1:5         5:13
 
-    - length: Length in bits (96 for full RTC, 0 for wildcard)
+    - length: Length in bits (96 for full RTC, 0 for wildcard, 32 to 95 for a prefix)
     - origin: Origin ASN (4 bytes, big-endian)
-    - rt: RouteTarget with flags reset (8 bytes)
+    - rt: RouteTarget with flags reset (8 bytes), or the octets the prefix length covers
 
-    Limitation: RFC 4684 prefix-based RTC filtering (variable length with partial RT)
-    is not yet implemented - only full RTC constraints are supported.
+    RFC 4684 prefixes (origin AS and the first bits of the route target) are decoded,
+    rendered and re-encoded as received; only full constraints can be built by make_rtc.
     """
 
     __slots__ = ()  # Only _packed needed, inherited from NLRI
@@ -128,6 +128,9 @@ class RTCBase(NLRI):
     def __str__(self) -> str:
         if len(self._packed) >= 13:
             return 'rtc {}:{}'.format(self.origin, self.rt)
+        if len(self._packed) >= 5:
+            # RFC 4684 prefix: the origin AS and the leading bits of the route target
+            return 'rtc {}:0x{}/{}'.format(self.origin, bytes(self._packed[5:]).hex(), self._packed[0])
         return 'rtc wildcard'
 
     def __repr__(self) -> str:
@@ -135,6 +138,11 @@ class RTCBase(NLRI):
 
     def json(self, announced: bool = True, compact: bool = False) -> str:
         rt = self.rt
+        if rt is None and len(self._packed) >= 5:
+            # RFC 4684 prefix: the origin AS and the leading bits of the route target
+            return '{{ "origin": {}, "route-target": "0x{}/{}" }}'.format(
+                self.origin, bytes(self._packed[5:]).hex(), self._packed[0]
+            )
         if rt is None:
             return '{ "origin": 0, "route-target": null }'
         return '{{ "origin": {}, "route-target": "{}" }}'.format(self.origin, rt)
@@ -158,8 +166,8 @@ class RTCBase(NLRI):
 
     def pack_nlri(self, negotiated: Negotiated) -> Buffer:
         """Pack NLRI - returns stored wire bytes directly (zero-copy)."""
-        assert len(self._packed) in (self.PACKED_LENGTH_WILDCARD, self.PACKED_LENGTH_FULL), (
-            'an RTC NLRI is either a wildcard or a full route target'
+        assert len(self._packed) == self.PACKED_LENGTH_WILDCARD or 5 <= len(self._packed) <= self.PACKED_LENGTH_FULL, (
+            'an RTC NLRI is a wildcard, or an origin AS and up to a full route target'
         )
         return self._packed
 
@@ -192,23 +200,26 @@ class RTCBase(NLRI):
                 'incorrect RTC length: %d (should be >=%d,<=%d)' % (length, RTC_PREFIX_MIN_BITS, RTC_PREFIX_MAX_BITS),
             )
 
-        if len(data) < cls.PACKED_LENGTH_FULL:
+        # the NLRI is as long as its prefix length says (13 octets for a full constraint):
+        # 13 were always read, so a shorter prefix was refused, or ate the NLRI which followed it
+        size = 1 + (length + 7) // 8
+
+        if len(data) < size:
             raise Notify(
                 3,
                 10,
-                'RTC NLRI truncated: need %d bytes, got %d' % (cls.PACKED_LENGTH_FULL, len(data)),
+                'RTC NLRI truncated: need %d bytes, got %d' % (size, len(data)),
             )
 
         # Store complete wire format with flags reset on RT
-        # Wire format: [length(1)][origin(4)][rt(8)]
-        packed = (
-            bytes(data[0:5])  # length + origin
-            + bytes([RTC.resetFlags(data[5])])  # RT first byte with flags reset
-            + bytes(data[6:13])  # RT remaining bytes
-        )
+        # Wire format: [length(1)][origin(4)][rt(0 to 8)]
+        packed = bytes(data[0:5])  # length + origin
+        if size > 5:
+            packed += bytes([RTC.resetFlags(data[5])])  # RT first byte with flags reset
+            packed += bytes(data[6:size])  # RT remaining bytes
 
         nlri = cls(packed)
-        return nlri, data[13:]
+        return nlri, data[size:]
 
 
 @NLRI.register(AFI.ipv4, SAFI.rtc)
